@@ -1,9 +1,12 @@
 #!/usr/bin/env python3
-"""tools/refactortest.py <dir with patch.diff> <C01,C02,...> : apply a behaviour-preserving
-refactoring to a scratch copy of /repo and run the given checks against it; every check must exit 0."""
-import os, shutil, subprocess, sys, tempfile
+"""tools/refactortest.py <dir with patch.diff> [C01,C02,...] : apply a behaviour-preserving
+refactoring to a scratch copy of /repo and run the given checks against it (default: the list
+checks_expected_green of the directory's meta.json); every check must exit 0."""
+import json, os, shutil, subprocess, sys, tempfile
 V = os.path.dirname(os.path.dirname(os.path.abspath(__file__)))
-d = os.path.abspath(sys.argv[1]); props = sys.argv[2].split(",")
+d = os.path.abspath(sys.argv[1])
+props = sys.argv[2].split(",") if len(sys.argv) > 2 else json.load(open(os.path.join(d, "meta.json")))["checks_expected_green"]
+os.makedirs("/var/tmp/vscratch", exist_ok=True)
 tmp = tempfile.mkdtemp(prefix="verif_ref_", dir="/var/tmp")
 try:
     repo = os.path.join(tmp, "repo")
